@@ -22,6 +22,12 @@ RULE = (
     "(thorough: up to 40) structures plus their collection objects, null elements, empty collections, shared "
     "collections, cycles; in half of the cases only a third of the roots stay indexed so that the rest is reachable only "
     "through references, FSArray / FSList elements or TOP features; in 30% some non-indexed structures have no id. "
+    "On top (xmicommon.widen, own random streams): in 40% one more feature name is declared on 2-3 types that are not "
+    "ancestors of one another, each with another range / multipleReferencesAllowed (string, primitive and FS arrays and lists, "
+    "primitives, TOP), and the structures of these types get values; in 45% collections sit where ordinary structures do: an "
+    "FSArray (sometimes a primitive array or an FSList) as the value of a TOP-ranged feature, as the head of an FSList node or "
+    "nested (up to depth 3) in an FSArray whose holders do not restrict the element type, its elements preferably not indexed, "
+    "the same collection now and then at two places. "
     "A case is non-trivial when it has >= 2 structures and a reference or collection slot is set."
 )
 TRUSTED = [
@@ -52,8 +58,8 @@ def generate(rng, tier):
     cassis = _load()
     n = {"quick": 200, "thorough": 2500, "search": 3000}[tier]
     for _ in range(n):
-        r = random.Random(rng.getrandbits(48))
-        yield xc.gen_scenario(r, cassis, tier)
+        seed = rng.getrandbits(48)
+        yield xc.widen(seed, cassis, xc.gen_scenario(random.Random(seed), cassis, tier))
 
 
 def _load():
@@ -117,6 +123,8 @@ def signature(sc, msg):
 def distribution(scenarios, observations):
     d = xc.stats(scenarios)
     d["elements_written"] = sum(len(o["doc"]["elems"]) for o in observations if o)
+    d["cases_same_feature_name_on_unrelated_types"] = sum(1 for sc in scenarios if sc.get("knobs", {}).get("same_name"))
+    d["cases_collections_as_reference_targets"] = sum(1 for sc in scenarios if sc.get("knobs", {}).get("coll_targets"))
     return d
 
 
